@@ -1,23 +1,32 @@
 ------------------------------ MODULE BearerMon ------------------------------
 (* Monitor for C14: evaluates Bearer!Holds (verdict) and equality with        *)
-(* Bearer!Expected (strict / drift) on outcomes of the real middleware.       *)
+(* Bearer!ExpectedAt (strict / drift) on outcomes of the real middleware.     *)
 (* One line = one abstract case, concretised once and presented twice to one  *)
 (* middleware instance (o1, o2: the verifier hands out the same cached        *)
 (* TokenInfo both times); the property speaks about every request.            *)
+(* Every outcome carries its instants (arrival; decision = entry of the       *)
+(* handler or answer of the refusal) counted in verifier calls since the      *)
+(* first arrival of the case: the clock of the run moves only while the       *)
+(* scripted verifier is at work.                                              *)
 EXTENDS VerifTrace, FiniteSets
 B == INSTANCE BearerDefs
 
 VARIABLE l
 MInit == l = 1 /\ MarkInit
 Case(e) == [hdr |-> e.c.hdr, ver |-> e.c.ver, req |-> AsSet(e.c.req), rform |-> e.c.rform, granted |-> AsSet(e.c.granted), gform |-> e.c.gform,
-            exp |-> e.c.exp, skew |-> e.c.skew, allow |-> e.c.allow, url |-> e.c.url, opts |-> e.c.opts]
+            exp |-> e.c.exp, skew |-> e.c.skew, allow |-> e.c.allow, url |-> e.c.url, opts |-> e.c.opts, dur |-> e.c.dur]
 Out(o) == [status |-> o.status, ran |-> o.ran, sameInfo |-> o.sameInfo, chal |-> o.chal,
-           chalUrl |-> o.chalUrl, chalScope |-> o.chalScope]
+           chalUrl |-> o.chalUrl, chalScope |-> o.chalScope, verCalled |-> o.verCalled, arr |-> o.arr, dec |-> o.dec]
+\* The instants of the outcome are multiples of the verifier's duration (-1: they are not, i.e. something else than the
+\* scripted verifier let time pass; the abstract instants are then unknown and the outcome is not judged, only reported)
+OnGrid(o) == o.arr >= 0 /\ o.dec >= 0
 Judge(c, o, sfx) ==
-  /\ Check(l, "Holds" \o sfx, B!Holds(c, Out(o)))
+  \* the verdict; the name says which clause of Holds fails first: Holds.OnlyIf, Holds.If, Holds.SameInfo, Holds.Status,
+  \* Holds.Challenge
+  /\ (IF OnGrid(o) => B!Holds(c, Out(o)) THEN TRUE ELSE Fail(l, "Holds." \o B!FailedClause(c, Out(o)) \o sfx))
   \* the verifier is asked about a credential the request presents
   /\ Check(l, "TokenPassed" \o sfx, o.verCalled => o.tokenOk)
-  /\ Check(l, "drift" \o sfx, Out(o) = B!Expected(c) /\ (o.verCalled <=> B!CodeValid(c.hdr)))
+  /\ Check(l, "drift" \o sfx, OnGrid(o) /\ Out(o) = B!ExpectedAt(c, o.arr))
 MNext == /\ l <= NLines /\ l' = l + 1
          /\ LET e == TraceLog[l]
                 c == Case(e) IN
